@@ -99,6 +99,13 @@ CHECKS = {
                      'stored; add-key with every KDF variant',
                 note='default scrypt cost lowered to n=16 in the harness for cases leaving the KDF at its default',
                 technique='exhaustive configuration enumeration (all single and pairwise deviations)'),
+    'C18': dict(cat='model_checking', ref='2/C18', engine='E2',
+                text='BFS over command histories of four clients (two processes of the owner, a shared-key and an independent-key user) '
+                     'with one shared or private cache directories; every transition is run with the cache, with the cache disabled '
+                     '(same backend state, randomness and clock) and with each single cache entry missing / empty / truncated; '
+                     'exception class, stdout, return values, restored tree and resulting backend objects must agree',
+                note='one corrupted entry at a time; all prefix lengths only from selected deep states',
+                technique='explicit-state BFS with twin execution (differential oracle) and crash-state enumeration of cache entries'),
 }
 NOT_YET = {}
 
@@ -135,7 +142,7 @@ m = {
     'engines': [
         {'name': 'E1', 'path': 'mc/dsched.py + mc/explore.py', 'serves_properties': ['C09', 'C02', 'C03'],
          'kind_free_text': 'deterministic scheduler for real threads + virtual asyncio loop; deviation-bounded stateless explorer'},
-        {'name': 'E2', 'path': 'mc/hist.py', 'serves_properties': ['C02', 'C06', 'C07', 'C08', 'C15'],
+        {'name': 'E2', 'path': 'mc/hist.py', 'serves_properties': ['C02', 'C06', 'C07', 'C08', 'C15', 'C18'],
          'kind_free_text': 'explicit-state BFS over command histories; transitions run the real commands with fresh Repository objects'},
         {'name': 'E3+E1', 'path': 'checks/C14.py', 'serves_properties': ['C14'], 'kind_free_text': 'product enumeration + completion-order exploration'},
         {'name': 'E2+E1', 'path': 'mc/hist.py + mc/explore.py', 'serves_properties': ['C02'], 'kind_free_text': 'both'},
